@@ -234,6 +234,12 @@ class FinishedPdu(AbstractFileDirectiveBase):
                 finished_pdu.pdu_file_directive.packet_len, len(data)
             )
         current_idx = finished_pdu.pdu_file_directive.header_len
+        # The TLVs end where the PDU ends, before the CRC trailer if there is one.
+        end_of_params = finished_pdu.packet_len
+        if finished_pdu.pdu_file_directive.pdu_conf.crc_flag == CrcFlag.WITH_CRC:
+            end_of_params -= 2
+        if current_idx + 1 > end_of_params:
+            raise BytesTooShortError(current_idx + 1, end_of_params)
         first_param_byte = data[current_idx]
         params = FinishedParams(
             condition_code=ConditionCode((first_param_byte & 0xF0) >> 4),
@@ -243,10 +249,6 @@ class FinishedPdu(AbstractFileDirectiveBase):
         finished_pdu.condition_code = params.condition_code
         finished_pdu._params = params
         current_idx += 1
-        # The TLVs end where the PDU ends, before the CRC trailer if there is one.
-        end_of_params = finished_pdu.packet_len
-        if finished_pdu.pdu_file_directive.pdu_conf.crc_flag == CrcFlag.WITH_CRC:
-            end_of_params -= 2
         if end_of_params > current_idx:
             finished_pdu._unpack_tlvs(rest_of_packet=data[current_idx:end_of_params])
         return finished_pdu
